@@ -397,7 +397,7 @@ def typed_lengths(F, S):
             a = calls[0]["args"]
             pv = ("var", fn.params[0]["n"], fn.params[0]["d"])
             from ..flow import substitute
-            sh = (substitute(fn.term(a[0]), {pv: ("X",)}), substitute(fn.term(a[1]), {pv: ("X",)}))
+            sh = (substitute(fn.xterm(a[0]), {pv: ("X",)}), substitute(fn.xterm(a[1]), {pv: ("X",)}))
             key = targs[0]["ct"].replace("const ", "")
             shapes.setdefault(key, {})[side] = (fn, calls[0], sh)
     for key, d in sorted(shapes.items()):
